@@ -1,4 +1,5 @@
 import Casket.Proofs.Policy
+import Casket.Spec.PolicyHeader
 import Casket.Proofs.Retry
 import Casket.Generated.Proxy
 /-
@@ -214,6 +215,128 @@ theorem C05_seq_all_ok (k : Kind) (steps : List (Pool × Nat × List Nat)) (robi
     rcases hpo with rfl | hpo
     · exact C05_model_verdict_ok k p robin h rs (hw (p, h, rs) (by simp))
     · exact ih _ (fun s hs => hw s (by simp [hs])) po hpo
+
+/-! ### `policy header <names…>`: the key of a real request (stream `c05.hdr`)
+
+`headerUpstreamSelect` models `Header.Select` behind `staticUpstream.Select` for requests parsed by net/http: the
+configured names are kept as written, the request's names were canonicalised, `Header.Get` meets them ignoring case
+and reads the first line of a header sent on several lines. -/
+
+theorem verdict_hash_eq_rr (p : Pool) (o : Option Nat) : verdict .hash p o = verdict .roundRobin p o := by
+  unfold verdict; simp
+
+theorem upstreamSelect_hash_fst (p : Pool) (r1 r2 h : Nat) :
+    (upstreamSelect .hash p r1 h []).1 = (upstreamSelect .hash p r2 h []).1 := by
+  unfold upstreamSelect
+  split
+  · rfl
+  · split <;> rfl
+
+/-- the spelling of the configured names does not matter: names equal up to ASCII case read the same key from every
+request (`x-session-id`, `X-SESSION-ID` and `X-Session-Id` are one policy). -/
+theorem C05_header_name_spelling (names names' : List Name) (req : Req)
+    (h : names.map foldName = names'.map foldName) : headerKey names req = headerKey names' req := by
+  have e : ∀ ns : List Name, ns.map (headerValues req) =
+      (ns.map foldName).map (fun l => (req.filter fun x => foldName x.1 == l).map (·.2)) := by
+    intro ns; rw [List.map_map]; rfl
+  unfold headerKey
+  rw [e names, e names', h]
+
+/-- Sticky on real requests: two requests that carry the same values for the configured headers (at least one of them
+non-empty on its first line) get the same backend from the same pool, wherever the shared round-robin counter stands
+and whatever else the requests carry. -/
+theorem C05_header_sticky (names : List Name) (p : Pool) (a b : Req) (r1 r2 : Nat)
+    (h : sameKey names a b = true) :
+    (headerUpstreamSelect names p r1 a).1 = (headerUpstreamSelect names p r2 b).1 := by
+  unfold sameKey at h
+  rw [Bool.and_eq_true] at h
+  obtain ⟨hk, hv⟩ := h
+  have hv' : names.map (headerValues a) = names.map (headerValues b) := by simpa using hv
+  have hkey : headerKey names a = headerKey names b := by unfold headerKey; rw [hv']
+  have hne : (headerKey names a).isEmpty = false := by
+    unfold keyed at hk
+    rw [List.any_eq_true] at hk
+    obtain ⟨n, hn, hg⟩ := hk
+    cases hke : headerKey names a with
+    | cons x xs => rfl
+    | nil =>
+      exfalso
+      unfold headerKey at hke
+      rw [List.flatMap_eq_nil_iff] at hke
+      have := hke (headerValues a n) (List.mem_map_of_mem hn)
+      unfold headerGet at hg
+      rw [this] at hg
+      simp at hg
+  unfold headerUpstreamSelect
+  simp only [← hkey, hne, Bool.false_eq_true, if_false]
+  exact upstreamSelect_hash_fst p r1 r2 _
+
+theorem headerRun_mem (names : List Name) (p : Pool) (reqs : List Req) (robin : Nat) :
+    ∀ x ∈ (headerRun names p reqs robin).1, ∃ rb, x.2 = (headerUpstreamSelect names p rb x.1).1 := by
+  induction reqs generalizing robin with
+  | nil => intro x hx; simp [headerRun] at hx
+  | cons r rest ih =>
+    intro x hx
+    simp only [headerRun, List.mem_cons] at hx
+    rcases hx with rfl | hx
+    · exact ⟨robin, rfl⟩
+    · exact ih _ x hx
+
+theorem headerSelect_verdict_ok (names : List Name) (p : Pool) (robin : Nat) (r : Req) (hw : WellSized p) :
+    verdict .hash p (headerUpstreamSelect names p robin r).1 = "ok" := by
+  unfold headerUpstreamSelect
+  by_cases he : (headerKey names r).isEmpty = true
+  · simp only [he, if_true]
+    rw [verdict_hash_eq_rr]
+    exact C05_model_verdict_ok .roundRobin p robin 0 [] hw
+  · simp only [he, Bool.false_eq_true, if_false]
+    exact C05_model_verdict_ok .hash p robin _ [] hw
+
+theorem headerRun_sticky (names : List Name) (p : Pool) (reqs : List Req) (robin : Nat) :
+    sticky names (headerRun names p reqs robin).1 = true := by
+  induction reqs generalizing robin with
+  | nil => rfl
+  | cons r rest ih =>
+    simp only [headerRun, sticky, Bool.and_eq_true]
+    refine ⟨?_, ih _⟩
+    unfold stickyFrom
+    rw [List.all_eq_true]
+    intro x hx
+    obtain ⟨rb, hrb⟩ := headerRun_mem names p rest _ x hx
+    by_cases hs : sameKey names r x.1 = true
+    · have := C05_header_sticky names p r x.1 robin rb hs
+      simp [hs, hrb, this]
+    · simp [hs]
+
+/-- The whole judged predicate of `c05.hdr`: for every spelling of the configured names, every pool, every run of
+requests and every counter value, the model's answers are sound, complete and sticky. -/
+theorem C05_header_model_verdict_ok (names : List Name) (p : Pool) (reqs : List Req) (robin : Nat)
+    (hw : WellSized p) : headerVerdict names p (headerRun names p reqs robin).1 = "ok" := by
+  unfold headerVerdict
+  have hnone : (headerRun names p reqs robin).1.find? (fun x => verdict .hash p x.2 != "ok") = none := by
+    rw [List.find?_eq_none]
+    intro x hx
+    obtain ⟨rb, hrb⟩ := headerRun_mem names p reqs robin x hx
+    rw [hrb, headerSelect_verdict_ok names p rb x.1 hw]
+    decide
+  rw [hnone]
+  simp [headerRun_sticky]
+
+/-- Witness of the defect repaired by `fix: proxy refuses policy header without a header name`: the block parser used to
+accept `policy header` with no name, and `Header.Select` (`if r.Names == nil { return nil }`) then chose nobody for any
+request — judged incomplete on a pool of two available backends.  The parser now refuses the line
+(`headerConfigOk`), which is what `c05.hdr` expects of a case with no names. -/
+theorem C05_header_nameless_fails_witness :
+    headerVerdict [] [⟨false, 0, 0⟩, ⟨false, 0, 0⟩] [([], none)]
+      = "bad:incomplete:an available backend exists but none was chosen" ∧ headerConfigOk [] = false := by
+  decide
+
+/-- non-vacuity: `x-id` in the Casketfile, the header sent as `X-Id` and `X-ID`, on two lines; the counter stands
+elsewhere for the second request -/
+example : sameKey [[120, 45, 105, 100]] [([88, 45, 73, 100], [97]), ([88, 45, 73, 68], [98])]
+    [([79], [1]), ([120, 45, 105, 100], [97]), ([88, 45, 73, 100], [98])] = true := by decide
+example : (headerRun [[120, 45, 105, 100]] [⟨false, 0, 0⟩, ⟨false, 0, 0⟩, ⟨false, 0, 0⟩]
+    [[([88, 45, 73, 100], [97])], [], [([88, 45, 73, 100], [97])]] 0).1.map (·.2) = [some 1, some 1, some 1] := by decide
 
 /-- The seven policy names the Casketfile accepts are the ones modelled
 (regenerated from policy.go:init on every run). -/
